@@ -226,6 +226,13 @@ def rule_urcuref(ctx, rep, rid="C04.urcuref"):
             elif v == ("c", 0):
                 okstop = any((a[0] == "eq" and a[2][0] == "c" and a[2][1] in stops) or (a[0] == "in" and set(a[2]) <= stops) for a in atoms) and not ok_cas
                 rep.check(okstop, rid, name[2:] + ".false-only-at-limit", "returns false only at %s" % sorted(stops), "returns false on %s" % [ir.atom_str(a) for a in atoms][:3], [g.rets()[0].where()])
+        # ... and at each limit it does return false: the CAS is attempted only when the expected value is known to differ from every limit
+        # (a reference taken from count 0 revives an object whose release callback has already run; LONG_MAX + 1 wraps negative)
+        for st_ in sorted(stops):
+            ex_edges = [(t.blk.id, s_) for t, s_, a in pat.branch_edges_on(g, lambda a, st_=st_: len(a) == 3 and ((a[0] == "ne" and a[2] == ("c", st_)) or (a[0] == "notin" and st_ in a[2])))]
+            excl = bool(ex_edges) and g.reach([g.entry()], [c.inst], edge_ok=pat.block_edge_filter(ex_edges), include_start=True)[0] is None
+            rep.check(excl, rid, name[2:] + ".refuses-at-%s" % ("0" if st_ == 0 else "LONG_MAX"), "no CAS is attempted from the count %s" % ("0" if st_ == 0 else "LONG_MAX"),
+                      "%s attempts its CAS although the count may be %s: %s" % (name[2:], "0" if st_ == 0 else "LONG_MAX", "a reference is taken on an object whose last reference is gone (release already ran / is running)" if st_ == 0 else "the count overflows"), [c.inst.where()])
         ph = g.inst_of(ir.strip_casts(g, c.exp))
         if ph is not None and ph.op == "phi":
             incs = [ir.expr(g, v_, 3) for v_, _b in ph.d["inc"]]
